@@ -415,6 +415,9 @@ func init() {
 				}
 			}
 			os.WriteFile(filepath.Join(core.Root, ".build", "C11-race-stderr.txt"), []byte(stderrAll), 0o644)
+			if n := core.SaveRaceReports("C11", stderrAll); n > 0 {
+				c.Note("%d race detector report(s) saved to %s", n, filepath.Join(core.Root, "replays", "C11-race-reports.txt"))
+			}
 			c.Set("race_monitor_executions", raceExecs)
 			c.Set("states", states)
 			c.Set("transitions", trans)
